@@ -295,6 +295,24 @@ static int is_live_block(const void * p)
     return p != NULL && h_alloc_find(p, &off) > 0 && off == 0;
 }
 
+/* the mirrored private structures are read only from a live block that is large
+ * enough to hold them: if the library's layout changed, the dump says so instead
+ * of reading past the end of the allocation (that would be a fault of the harness,
+ * not of the library) */
+static int is_data_block(const void * p)
+{
+    size_t off;
+    int id = p != NULL ? h_alloc_find(p, &off) : 0;
+    return id > 0 && off == 0 && h_alloc_size(id) == sizeof(struct m_shared_ptr_data);
+}
+
+static int is_desc_block(const void * p)
+{
+    size_t off;
+    int id = p != NULL ? h_alloc_find(p, &off) : 0;
+    return id > 0 && off == 0 && h_alloc_size(id) >= sizeof(struct m_raw_array);
+}
+
 static void dump_obj(struct ref r, int * first)
 {
     const struct cstl_guarded_ptr * gp = gp_of(r);
@@ -334,10 +352,10 @@ static void dump_obj(struct ref r, int * first)
         if (stamped && gp->ptr != NULL) {
             const struct m_shared_ptr_data * d = gp->ptr;
             const struct m_raw_array * ra = NULL;
-            if (is_live_block(d)) {
+            if (is_data_block(d)) {
                 ra = d->up.gp.ptr;
             }
-            if (ra != NULL && is_live_block(ra)) {
+            if (ra != NULL && is_desc_block(ra)) {
                 long b = -1;
                 int e;
                 if (ra->buf == (const void *)(ra + 1)) {
@@ -448,6 +466,8 @@ static void dump(void)
                 outf("d?");
             } else if (!is_live_block(d)) {
                 outf("d%ld=dead", prev);
+            } else if (!is_data_block(d)) {
+                outf("d%ld=layout?", prev);
             } else {
                 outf("d%ld=h%zu,s%zu,m", prev,
                      (size_t)atomic_load(&((struct m_shared_ptr_data *)d)->ref.hard),
@@ -494,6 +514,128 @@ static void out_ptr(const void * p)
 }
 
 #define IS(r, kk) ((r).k == (kk))
+
+/*
+ * smany <s> <n>: n further shared pointers (a separate large pool, outside the
+ * allocation ledger) are made co-owners of what s owns and n weak pointers are
+ * taken from it; s must not report unique, every co-owner's get equals s's;
+ * then all of them are reset again.  Nothing may be allocated, freed or
+ * cleared during the whole operation and unique() must be what it was before.
+ * Net effect on the state: none.  Result `ok` or `bad <what>`.
+ */
+void * __real_calloc(size_t, size_t);
+void __real_free(void *);
+
+static void smany(cstl_shared_ptr_t * sp, size_t n)
+{
+    cstl_shared_ptr_t * big = __real_calloc(n + 1, sizeof(*big));
+    cstl_weak_ptr_t * wk = __real_calloc(n + 1, sizeof(*wk));
+    const char * what = NULL;
+    const void * mine;
+    const bool was_unique = cstl_shared_ptr_unique(sp);
+    size_t i, ev0;
+
+    ev_sync();
+    ev0 = evn;
+    mine = cstl_shared_ptr_get_const(sp);
+    for (i = 0; i < n; i++) {
+        cstl_shared_ptr_init(&big[i]);
+        cstl_weak_ptr_init(&wk[i]);
+    }
+    for (i = 0; i < n && what == NULL; i++) {
+        cstl_shared_ptr_share(sp, &big[i]);
+        cstl_weak_ptr_from(&wk[i], sp);
+        if (cstl_shared_ptr_get_const(&big[i]) != mine) {
+            what = "co-owner-get-differs";
+        }
+        if (mine != NULL && cstl_shared_ptr_unique(sp)) {
+            what = "unique-with-co-owners";
+        }
+    }
+    for (i = 0; i < n; i++) {
+        cstl_shared_ptr_reset(&big[i]);
+        ev_sync();
+        if (what == NULL && evn != ev0) {
+            what = "memory-released-or-cleared-while-an-owner-exists";
+        }
+        if (what == NULL && cstl_shared_ptr_get_const(sp) != mine) {
+            what = "owner-get-changed";
+        }
+    }
+    if (what == NULL && mine != NULL && n > 0 && cstl_shared_ptr_unique(sp)) {
+        what = "unique-with-weak-references";
+    }
+    for (i = 0; i < n; i++) {
+        cstl_weak_ptr_reset(&wk[i]);
+        ev_sync();
+        if (what == NULL && evn != ev0) {
+            what = "bookkeeping-released-while-referenced";
+        }
+    }
+    if (what == NULL && cstl_shared_ptr_unique(sp) != was_unique) {
+        what = "unique-changed";
+    }
+    if (what != NULL) {
+        outf("bad %s", what);
+    } else {
+        outf("ok");
+    }
+    __real_free(wk);
+    __real_free(big);
+}
+
+/*
+ * amany <a> <n>: n further array objects (separate large pool) become views of
+ * the whole of a (slice [0, size)); every view addresses the same storage; while
+ * they exist a release of a must be refused (NULL, a unchanged); then the views
+ * are reset.  Nothing may be allocated, freed or cleared.  Net effect: none.
+ */
+static void amany(cstl_array_t * a, size_t n)
+{
+    cstl_array_t * big = __real_calloc(n + 1, sizeof(*big));
+    const char * what = NULL;
+    const size_t len = cstl_array_size(a);
+    const void * first = len > 0 ? cstl_array_at_const(a, 0) : NULL;
+    const void * data = cstl_array_data_const(a);
+    size_t i, ev0;
+
+    ev_sync();
+    ev0 = evn;
+    for (i = 0; i < n; i++) {
+        cstl_array_init(&big[i]);
+    }
+    for (i = 0; i < n && what == NULL; i++) {
+        cstl_array_slice(a, 0, len, &big[i]);
+        if (cstl_array_size(&big[i]) != len || cstl_array_data_const(&big[i]) != data
+            || (len > 0 && cstl_array_at_const(&big[i], 0) != first)) {
+            what = "view-differs-from-its-source";
+        }
+    }
+    if (what == NULL && n > 0 && data != NULL) {
+        void * p = (void *)&p;
+        cstl_array_release(a, &p);
+        if (p != NULL || cstl_array_size(a) != len || cstl_array_data_const(a) != data) {
+            what = "release-not-refused-while-views-exist";
+        }
+    }
+    for (i = 0; i < n; i++) {
+        cstl_array_reset(&big[i]);
+        ev_sync();
+        if (what == NULL && evn != ev0) {
+            what = "buffer-released-while-a-view-refers-to-it";
+        }
+    }
+    if (what == NULL && (cstl_array_size(a) != len || cstl_array_data_const(a) != data
+                         || (len > 0 && cstl_array_at_const(a, 0) != first))) {
+        what = "source-changed";
+    }
+    if (what != NULL) {
+        outf("bad %s", what);
+    } else {
+        outf("ok");
+    }
+    __real_free(big);
+}
 
 static void op(int argc, char ** argv)
 {
@@ -566,6 +708,10 @@ static void op(int argc, char ** argv)
     } else if (!strcmp(o, "sswap") && argc == 3 && IS(x, KS) && IS(y = parse_obj(argv[2]), KS)) {
         cstl_shared_ptr_swap(&S[x.i], &S[y.i]);
         outf("ok");
+    } else if (!strcmp(o, "amany") && argc == 3 && IS(x, KA) && is_size(argv[2]) && h_size(argv[2]) <= 1000000) {
+        amany(&A[x.i], h_size(argv[2]));
+    } else if (!strcmp(o, "smany") && argc == 3 && IS(x, KS) && is_size(argv[2]) && h_size(argv[2]) <= 1000000) {
+        smany(&S[x.i], h_size(argv[2]));
     } else if (!strcmp(o, "sreset") && argc == 2 && IS(x, KS)) {
         cstl_shared_ptr_reset(&S[x.i]);
         outf("ok");
